@@ -9,11 +9,13 @@ Every method is written as the sequence of atomic steps of the Go source,
 
 in a small state monad `M` whose `lock`/`rlock` steps answer `blocked` when the lock cannot be taken.
 A path that returns without unlocking therefore leaves `mutexHeld = true`, and every later locking
-operation answers `blocked` — there is no other goroutine that could release it.  `Restart`
-(entity.go:646) is written exactly as coded: its rejected branch (`getState() >= Share`) returns while the
-write lock is still held.  The repaired control flow is ONE change: `Cfg.restartUnlocksOnReject := true`
-makes that branch `unlock` before returning (all theorems named `…_repaired` are about that variant; the
-driver and every other theorem use `Cfg.code`, the code as it exists).
+operation answers `blocked` — there is no other goroutine that could release it.
+
+`Restart` (entity.go:646) is written step by step. Since repo commit 4a40ef6 its rejected branch
+(`getState() >= Share`) unlocks before it returns; before that commit it returned with the write lock held.
+The two control flows differ in ONE step, selected by `Cfg.restartUnlocksOnReject`: `Cfg.code` (flag on) is the
+code as it exists — the driver and every property theorem use it; `Cfg.before4a40ef6` (flag off) is the
+historical control flow, kept only so that the old defect stays stated (theorems labelled HISTORICAL).
 
 The `timeoutCounter` has its own mutex `tc.mutex`, locked and `defer`-unlocked at the top of every one of
 its methods and never left locked; each of its methods is one atomic step here.
@@ -86,11 +88,14 @@ structure R where
 deriving Repr
 
 structure Cfg where
-  /-- `false` = the code as it exists: the rejected branch of `Restart` returns with `r.mutex` locked. -/
-  restartUnlocksOnReject : Bool := false
+  /-- `true` = the code as it exists (since commit 4a40ef6): the rejected branch of `Restart` unlocks `r.mutex` before
+  it returns. `false` = the control flow before that commit (returned with the mutex locked). -/
+  restartUnlocksOnReject : Bool := true
 
+/-- the code as it exists -/
 def Cfg.code : Cfg := {}
-def Cfg.repaired : Cfg := { restartUnlocksOnReject := true }
+/-- HISTORICAL: `Restart` before repo commit 4a40ef6 -/
+def Cfg.before4a40ef6 : Cfg := { restartUnlocksOnReject := false }
 
 inductive Ans where
   | unit
@@ -328,11 +333,11 @@ def Op.body : Op → D → Ans × D
   | .getSoft, s => (.int (s.soft : Int), s)
 
 /-- `Restart` (entity.go:646), step by step as written:
-`Lock(); if getState() >= Share { return err }; initialize(); …; ResetPhase(ShareVRF); Unlock(); return nil`. -/
+`Lock(); if getState() >= Share { Unlock(); return err }; initialize(); …; ResetPhase(ShareVRF); Unlock(); return nil`. -/
 def restart (cfg : Cfg) : M Ans :=
   M.bind lock fun _ => fun s =>
     if s.d.phase ≥ Share then
-      -- `return CompleteRoundRestartError` — no Unlock on this path in the code
+      -- `r.mutex.Unlock(); return CompleteRoundRestartError` (the Unlock exists since commit 4a40ef6)
       (if cfg.restartUnlocksOnReject then M.bind unlock (fun _ => M.pure Ans.errComplete) else M.pure Ans.errComplete) s
     else
       (M.bind (act fun d => ((), restartBodyF d)) fun _ => M.bind unlock fun _ => M.pure Ans.unit) s
